@@ -300,3 +300,63 @@ func VerifC04Nested() {
 		vrt.Assert(err == nil, "nested/outer-ok")
 	}
 }
+
+// VerifC04Siblings: two global transactions one after the other on one seata context
+// the caller made (no transaction of its own on it): each gets its own begin, its own
+// decision and its own truthful answer, whatever the first one's outcome and mode.
+func VerifC04Siblings() {
+	config = TmConfig{CommitRetryCount: 1, RollbackRetryCount: 1}
+	var log []c04Call
+	nbegin := 0
+	vrt.Redirect((*getty.GettyRemotingClient).SendSyncRequest, func(_ *getty.GettyRemotingClient, msg interface{}) (interface{}, error) {
+		ok := message.AbstractTransactionResponse{AbstractResultMessage: message.AbstractResultMessage{ResultCode: message.ResultCodeSuccess}}
+		switch m := msg.(type) {
+		case message.GlobalBeginRequest:
+			nbegin++
+			xid := []string{"first", "second", "third"}[(nbegin-1)%3]
+			log = append(log, c04Call{kind: c04Begin, xid: xid})
+			return message.GlobalBeginResponse{AbstractTransactionResponse: ok, Xid: xid}, nil
+		case message.GlobalCommitRequest:
+			log = append(log, c04Call{kind: c04Commit, xid: m.Xid})
+			return message.GlobalCommitResponse{AbstractGlobalEndResponse: message.AbstractGlobalEndResponse{AbstractTransactionResponse: ok}}, nil
+		case message.GlobalRollbackRequest:
+			log = append(log, c04Call{kind: c04Rollback, xid: m.Xid})
+			return message.GlobalRollbackResponse{AbstractGlobalEndResponse: message.AbstractGlobalEndResponse{AbstractTransactionResponse: ok}}, nil
+		}
+		return nil, errors.New("unexpected request")
+	})
+	ctx := InitSeataContext(context.Background())
+	modes := []Propagation{Required, RequiresNew, Supports}
+	firstMode := modes[vrt.Choice("first.mode", 2)]
+	firstFails, secondFails := vrt.Bool("first.business.fails"), vrt.Bool("second.business.fails")
+	secondMode := modes[vrt.Choice("second.mode", 3)]
+	run := func(name string, mode Propagation, fails bool) (string, error) {
+		saw := "?"
+		err := WithGlobalTx(ctx, &GtxConfig{Name: name, Propagation: mode}, func(c context.Context) error {
+			saw = GetXID(c)
+			if fails {
+				return errors.New("business failed")
+			}
+			return nil
+		})
+		return saw, err
+	}
+	saw1, err1 := run("first", firstMode, firstFails)
+	vrt.Assert(saw1 == "first" && (err1 != nil) == firstFails, "siblings/first-scope-runs-its-own-transaction")
+	n1 := len(log)
+	saw2, err2 := run("second", secondMode, secondFails)
+	vrt.Reach("siblings/end")
+	after := log[n1:]
+	if secondMode == Supports {
+		// nothing is going on on this context: the scope runs without a transaction
+		vrt.Assert(saw2 == "" && len(after) == 0, "siblings/supports-after-a-finished-transaction-runs-without-one")
+		return
+	}
+	vrt.Assert(saw2 == "second", "siblings/second-scope-begins-its-own-transaction")
+	vrt.Assert((err2 != nil) == secondFails, "siblings/second-scope-answers-its-own-outcome")
+	want := c04Commit
+	if secondFails {
+		want = c04Rollback
+	}
+	vrt.Assert(len(after) == 2 && after[0].kind == c04Begin && after[1].kind == want && after[1].xid == "second", "siblings/second-scope-gets-its-own-decision")
+}
